@@ -122,6 +122,15 @@ def _disk_case(desc, ctx):
         bmode = "circle"
     else:
         bmode = mode
+    if rng.random() < 0.5:
+        # history: the same mesh object was embedded before with the other weighting (and other storage); the second run must not inherit anything
+        ctx.cls("history:embedded_before_with_other_weights")
+        kw0 = dict(kwargs)
+        kw0["save_on_corners"] = not desc["corners"]
+        ok, emb0 = ctx.call("TutteEmbedding", lambda: M.parametrization.TutteEmbedding(m, bmode, use_cotan=not cotan, verbose=False, **kw0), monitor="border")
+        ok, _ = ctx.call("run_previous[%s]" % mode.split("_")[0], emb0.run, monitor="border")
+    else:
+        ctx.cls("history:fresh")
     ok, emb = ctx.call("TutteEmbedding", lambda: M.parametrization.TutteEmbedding(m, bmode, use_cotan=cotan, verbose=False, **kwargs), monitor="border")
     ok, _ = ctx.call("run[%s]" % mode.split("_")[0], emb.run, monitor="border")
     # read uv per vertex
